@@ -455,7 +455,7 @@ func TestC20(t *testing.T) {
 		}
 		c.rec.Bulk("short-strings", evals, nt, map[string]int64{"short-string-at-parser": evals})
 	}
-	c.rapidStage("rapid-codes", pick(50000, 500000), func(rt *rapid.T) {
+	c.rapidStage("rapid-codes", pick(50000, 2000000), func(rt *rapid.T) {
 		a := rapid.SampledFrom(apis).Draw(rt, "metric")
 		var s string
 		switch rapid.IntRange(0, 3).Draw(rt, "kind") {
@@ -478,7 +478,7 @@ func TestC20(t *testing.T) {
 		c.rec.Case("rapid-codes", fmt.Sprintf("%d|%s|%s", a.ver, a.name, s), !valid, cl)
 		evalCase(c, rt, "code", cs, checkC20Code)
 	})
-	c.rapidStage("rapid-version", pick(20000, 200000), func(rt *rapid.T) {
+	c.rapidStage("rapid-version", pick(20000, 500000), func(rt *rapid.T) {
 		var s string
 		switch rapid.IntRange(0, 3).Draw(rt, "kind") {
 		case 0:
